@@ -24,3 +24,22 @@ def obligations(ctx, prefix=""):
                "A4 of the clock edge per control word with the byte class pinned")
     chk.floor("IR-loading control words", nl, 15)
 
+
+
+def stop_edge_advances(ctx, prefix=""):
+    """the edge that loads STOP is a complete edge: the sequencer moves on as it does for that opcode, so that the continue
+    key (which only sets the state back to Running) resumes with the next instruction (shared by C01, C05, C09)"""
+    chk = ctx.chk
+    g = ctx.graph
+    for a in sorted(g.prog):
+        if not g.is_load(a):
+            continue
+        h = g.front[a].get("halts", {})
+        want = sorted({a2 for _pins, a2 in g.mt.succ(a, 1)})
+        got = h.get("0x01", {}).get("addr")
+        chk.ob(prefix + "stop-edge-advances/%#05x" % a, isinstance(got, list) and bool(got) and set(got) <= set(want),
+               "the edge that loads STOP leaves the micro-sequencer at the successor of the fetch word for that opcode "
+               "(not on the fetch word), so a continue resumes with the next instruction",
+               "control word %#05x" % a, "micro-address after the edge: %s; successors by the next-address logic: %s"
+               % ([hex(x) for x in got] if isinstance(got, list) else got, [hex(x) for x in want]),
+               "A4 of the clock edge with the loaded byte pinned to 0x01")
